@@ -71,4 +71,9 @@ theorem finalizer_attached_after_publish : Generated.finalizerAttachedAfterPubli
     before they look at the state (read from the source on every run): no call runs between a sealing append and its rotation -/
 theorem writers_wait_for_queued_rotation : Generated.writersAwaitRotationFirst = true := by decide
 
+/-- every reference a call takes on the current state is given back exactly once (read from the source on every run: each
+    `acquireState()` site declares fresh variables and defers the release in the next statement) — the discipline the
+    readers of `Model.Conc` follow and `refcount_exact` / `no_double_close` / the reclaim theorems rest on -/
+theorem every_acquire_is_released_once : Generated.everyAcquireHasDeferredRelease = true := by decide
+
 end RaftWal.C06
